@@ -78,6 +78,11 @@ def gen_cases(tier, seed):
             # continuation), and an observer that plays during that move
             for k in (1, 2):
                 plist.append([{'at': s0, 'act': ['resume', ['then-pause']]}, {'at': s0, 'act': ['pause', 'p']}, {'at': ['listener', 'running', k], 'act': ['play']}])
+        # the instance is lost while the process waits (or is paused in its wait) and the process goes on in one recreated from a
+        # checkpoint taken there: the wake-up that arrives afterwards is delivered to it
+        QQ = lambda *acts: [{'at': 'q', 'act': list(a)} for a in acts]  # noqa: E731
+        plist += [QQ(['reincarnate'], ['resume', ['new-instance']]), QQ(['pause', 'p'], ['reincarnate'], ['resume', ['new-instance']], ['play']),
+                  QQ(['pause', 'p'], ['reincarnate'], ['play'], ['resume', ['new-instance']]), QQ(['reincarnate'], ['reincarnate'], ['resume', ['new-instance']])]
         # an observer that pauses the process when it is told that it waits (the pause is requested inside the move into the wait)
         for k in (1, 2):
             plist.append([{'at': ['listener', 'waiting', k], 'act': ['pause', 'p']}])
